@@ -44,10 +44,10 @@ def run(ctx):
     for m in (WS, OBJ, "optimism.EquationSolver", "optimism.TrustRegionSPG", "optimism.AlSolver",
               "optimism.BoundConstrainedSolver", "optimism.BoundConstrainedObjective"):
         ctx.need_module(m)
-    d1(ctx)
-    d2(ctx)
-    d3(ctx)
-    d4(ctx)
+    ctx.guard(d1, ctx)
+    ctx.guard(d2, ctx)
+    ctx.guard(d3, ctx)
+    ctx.guard(d4, ctx)
     ctx.trust("scipy.sparse.linalg.cg(A, b, M=...) returns an approximation of A^-1 b")
     ctx.assume("Hessian positive definite at the current solution; diagonal scalings > 0 (property text)")
 
